@@ -53,7 +53,7 @@ theorem floor_div_half (s n : ℕ) (hn : 0 < n) : ⌊((s : ℚ) + 1 / 2) / n⌋ 
 
 /-- one direction of `translate`: the translated position entry and its cell identifier -/
 theorem translate_dim (D : Dim ℚ) (hD : DimExact D) (c r : ℕ) :
-    ∃ p : ℚ, pymod Ops.rat ((D.cmax[c % D.n]! + D.cmin[c % D.n]!) / Ops.rat.ofInt 2 + D.cmin[r % D.n]!) D.len = p ∧
+    ∃ p : ℚ, pywrap Ops.rat ((D.cmax[c % D.n]! + D.cmin[c % D.n]!) / Ops.rat.ofInt 2 + D.cmin[r % D.n]!) D.len = p ∧
       0 ≤ p ∧ p ≤ D.len ∧
       Ops.rat.toInt (p / (D.len / Ops.rat.ofInt D.n)) = (((c % D.n + r % D.n) % D.n : ℕ) : ℤ) := by
   obtain ⟨hn, side, hs, hlen, hmin, hmax⟩ := hD
@@ -74,9 +74,9 @@ theorem translate_dim (D : Dim ℚ) (hD : DimExact D) (c r : ℕ) :
     exact_mod_cast hdm
   have hrem : (a + o) % D.n + 1 ≤ D.n := Nat.mod_lt _ hn
   have hremq : (((a + o) % D.n : ℕ) : ℚ) + 1 ≤ D.n := by exact_mod_cast hrem
-  have hp : pymod Ops.rat ((D.cmax[a]! + D.cmin[a]!) / Ops.rat.ofInt 2 + D.cmin[o]!) D.len
+  have hp : pywrap Ops.rat ((D.cmax[a]! + D.cmin[a]!) / Ops.rat.ofInt 2 + D.cmin[o]!) D.len
       = ((((a + o) % D.n : ℕ) : ℚ) + 1 / 2) * side := by
-    rw [hx, pymod_rat_nonneg _ _ hx0 hL, hdiv, floor_div_half _ _ hn, hlen]
+    rw [hx, JF.pywrap_rat_pos _ _ hL, hdiv, floor_div_half _ _ hn, hlen]
     simp only [Int.cast_natCast]
     linear_combination side * hdmq.symm
   refine ⟨_, hp, by positivity, ?_, ?_⟩
